@@ -194,3 +194,76 @@ Definition target_base (dest : path) (source : path) (dest_is_dir no_target_dir 
   end.
 
 Definition target_of (tb : path) (r : rel) : path := tb ++ map CNormal r.
+
+(* ---- the walk, restated as: list the selected entries (pruning at ignored
+   directories), then process them in order until the first failure ---- *)
+Section Sel.
+  Variable keep : rel -> bool -> bool.
+  Variable deref : bool.
+
+  Fixpoint sel_entries (r : rel) (t : tree) {struct t} : list (rel * ekind * bool) :=
+    if negb (keep r (tree_is_dir t)) then [] else
+    let children_of := fix go (cs : list (name * tree)) : list (rel * ekind * bool) :=
+        match cs with
+        | [] => []
+        | (n, c) :: rest => sel_entries (r ++ [n]) c ++ go rest
+        end in
+    match t with
+    | TFile len => [(r, EFile len, false)]
+    | TDir cs => (r, EDir, true) :: children_of cs
+    | TSpecial ft => [(r, ESpecial ft, false)]
+    | TOther ft => [(r, EOther ft, false)]
+    | TLink text res =>
+        if deref then
+          match res with
+          | LDangling => [(r, EBroken 3, false)]
+          | LLoop => [(r, EBroken 4, false)]
+          | LTarget (TFile len) => [(r, EFile len, false)]
+          | LTarget (TDir cs) => (r, EDir, true) :: children_of cs
+          | LTarget (TSpecial ft) => [(r, ESpecial ft, false)]
+          | LTarget (TOther ft) => [(r, EOther ft, false)]
+          | LTarget (TLink _ _) => [(r, EBroken 4, false)]
+          end
+        else [(r, ELink text, tree_is_dir t)]
+    end.
+End Sel.
+
+Section Process.
+  Variable cfg : wcfg.
+  Variable dexists : rel -> bool.
+
+  Definition act_of (e : rel * ekind * bool) : list wact * bool :=
+    let '(r, k, _) := e in
+    match k with
+    | EBroken c => ([WErr c r], false)        (* canonicalize fails before the no-clobber check *)
+    | _ =>
+        if w_no_clobber cfg && dexists r then ([WErr 1 r], false) else
+        match k with
+        | EFile len => ([WSize len; WCopy r len], true)
+        | EDir => ([WMkdir r], true)
+        | ELink text => ([WLink r text], true)
+        | ESpecial ft => ([WSpecial r ft], true)
+        | EOther ft => ([WErr 2 r], false)
+        | EBroken c => ([WErr c r], false)
+        end
+    end.
+
+  Fixpoint process (es : list (rel * ekind * bool)) : list wact * bool :=
+    match es with
+    | [] => ([], true)
+    | e :: rest =>
+        let '(a, ok) := act_of e in
+        if ok then let '(b, ok') := process rest in (a ++ b, ok') else (a, false)
+    end.
+End Process.
+
+(* an entry is kept iff the filter accepts it and every directory above it
+   (relative to the walk root r): s is the path below r *)
+Fixpoint kept_suffix (keep : rel -> bool -> bool) (r : rel) (s : rel) (d : bool) : bool :=
+  match s with
+  | [] => keep r d
+  | x :: s' => keep r true && kept_suffix keep (r ++ [x]) s' d
+  end.
+
+Definition kept_from (keep : rel -> bool -> bool) (r : rel) (e : rel * ekind * bool) : bool :=
+  let '(q, _, d) := e in kept_suffix keep r (skipn (length r) q) d.
